@@ -30,6 +30,7 @@
 
 extern "C" {
 #include "src/libzvbi.h"
+const char* zsim_c01_tripwire(const vbi_decoder* vbi);  // worlds/c/tripwire_c01.c
 }
 
 using namespace sim;
@@ -1252,6 +1253,14 @@ struct C01 : World {
     free(sl);
     s.frames++;
     ls.clear();
+    // "never accesses memory outside its objects": the big decoder object is one heap block, an overrun of one member into
+    // the next is invisible to ASan.  Tripwires at member boundaries that are cheap to test between two frames: the three
+    // mutexes are not held now, so their memory is what PTHREAD_MUTEX_INITIALIZER left (all zero); vt.current points to one
+    // of the eight raw pages (it sits right behind raw_page[7], in front of the caption mutex).
+    if (!c.failed) {
+      const char* bad = zsim_c01_tripwire(s.dec);
+      if (bad) c.fail("oracle:decoder-memory-tripwire", "after frame %d the decoder member %s holds bytes nothing may have written there: a neighbouring member was overrun", s.frames, bad);
+    }
     // "never grows without bound": what the decoder holds between two frames is bounded by what was transmitted
     if (alloc_track_available() && !alloc_overflowed() && !c.failed) {
       size_t held = alloc_live_bytes();
